@@ -37,9 +37,11 @@ verus!{
 #[verifier::external_trait_specification] pub trait ExDatabaseOps { type ExternalTraitSpecificationFor: salsa::plumbing::DatabaseOps; }
 #[verifier::external_trait_specification] pub trait ExSalsaDatabase: salsa::plumbing::DatabaseOps { type ExternalTraitSpecificationFor: salsa::Database; }
 #[verifier::external_trait_specification] pub trait ExHasQueryGroup<G: salsa::plumbing::QueryGroup>: salsa::Database { type ExternalTraitSpecificationFor: salsa::plumbing::HasQueryGroup<G>; }
+/// the resolved include map stored for a file (what file_system::collect_sources recorded)
+pub uninterp spec fn inc_map<D: ?Sized>(db: &D, f: FileId) -> Map<IncludeId, FileId>;
 #[verifier::external_trait_specification] pub trait ExSourceDatabase: salsa::Database + salsa::plumbing::HasQueryGroup<ide::db::SourceDatabaseStorage> {
     type ExternalTraitSpecificationFor: ide::db::SourceDatabase;
-    fn resolved_include_map(&self, file_id: FileId) -> std::collections::HashMap<IncludeId, FileId>;
+    fn resolved_include_map(&self, file_id: FileId) -> (r: std::collections::HashMap<IncludeId, FileId>) ensures r@ == inc_map(self, file_id);
     fn parse(&self, file_id: FileId) -> syntax::Parse;
     fn line_index(&self, file_id: FileId) -> std::sync::Arc<ide::line_index::LineIndex>;
 }
@@ -47,9 +49,16 @@ verus!{
 #[verifier::external_type_specification] #[verifier::external_body] #[verifier::reject_recursive_types(L)] pub struct ExSyntaxNode<L: rowan::Language>(rowan::SyntaxNode<L>);
 #[verifier::external_type_specification] #[verifier::external_body] #[verifier::reject_recursive_types(L)] pub struct ExSyntaxNodePtr<L: rowan::Language>(rowan::ast::SyntaxNodePtr<L>);
 #[verifier::external_trait_specification] pub trait ExLanguage0: Sized + Copy + core::fmt::Debug + Eq + Ord + core::hash::Hash { type ExternalTraitSpecificationFor: rowan::Language; type Kind: Sized + Copy + core::fmt::Debug + Eq + Ord + core::hash::Hash; }
-#[verifier::external_trait_specification] pub trait ExAstNode0 { type ExternalTraitSpecificationFor: rowan::ast::AstNode; type Language: rowan::Language; fn can_cast(kind: <Self::Language as rowan::Language>::Kind) -> bool where Self: Sized; fn cast(node: rowan::SyntaxNode<Self::Language>) -> Option<Self> where Self: Sized; fn syntax(&self) -> &rowan::SyntaxNode<Self::Language>; }
-pub assume_specification<L: rowan::Language> [rowan::SyntaxNode::<L>::text_range] (n: &rowan::SyntaxNode<L>) -> rowan::TextRange;
-pub assume_specification<L: rowan::Language> [rowan::ast::SyntaxNodePtr::<L>::new] (n: &rowan::SyntaxNode<L>) -> rowan::ast::SyntaxNodePtr<L>;
+#[verifier::external_trait_specification] pub trait ExAstNode0 { type ExternalTraitSpecificationFor: rowan::ast::AstNode; type Language: rowan::Language; fn can_cast(kind: <Self::Language as rowan::Language>::Kind) -> bool where Self: Sized; fn cast(node: rowan::SyntaxNode<Self::Language>) -> Option<Self> where Self: Sized; fn syntax(&self) -> (r: &rowan::SyntaxNode<Self::Language>) ensures *r == ast_syntax::<Self, Self::Language>(self); }
+/// the syntax node behind a typed AST node
+pub uninterp spec fn ast_syntax<A: ?Sized, L: rowan::Language>(a: &A) -> rowan::SyntaxNode<L>;
+pub uninterp spec fn node_range<L: rowan::Language>(n: &rowan::SyntaxNode<L>) -> syntax::parser::TextRange;
+pub assume_specification<L: rowan::Language> [rowan::SyntaxNode::<L>::text_range] (n: &rowan::SyntaxNode<L>) -> (r: rowan::TextRange) ensures r == node_range(n);
+pub uninterp spec fn ptr_of<L: rowan::Language>(n: &rowan::SyntaxNode<L>) -> rowan::ast::SyntaxNodePtr<L>;
+pub assume_specification<L: rowan::Language> [rowan::ast::SyntaxNodePtr::<L>::new] (n: &rowan::SyntaxNode<L>) -> (r: rowan::ast::SyntaxNodePtr<L>) ensures r == ptr_of(n);
+pub assume_specification<'a, T: Copy> [Option::<&'a T>::copied] (o: Option<&'a T>) -> (r: Option<T>) ensures r == (match o { Some(x) => Some(*x), None => None::<T> });
+/// A-hash: IncludeId obeys vstd's key model
+pub broadcast axiom fn ax_includeid_key_model() ensures #[trigger] vstd::std_specs::hash::obeys_key_model::<IncludeId>();
 
 #[verifier::external_trait_specification] pub trait ExIndexDatabase: salsa::Database + salsa::plumbing::HasQueryGroup<ide::index::IndexDatabaseStorage> + ide::db::SourceDatabase { type ExternalTraitSpecificationFor: ide::index::IndexDatabase; }
 #[verifier::external_type_specification] #[verifier::external_body] pub struct ExIDS(ide::index::IndexDatabaseStorage);
